@@ -50,6 +50,10 @@ def main():
         out["demo_clean_exit"] = r.returncode
         r = sh(["git", "-C", wt, "apply", os.path.join(src, "patch.diff")])
         if r.returncode != 0:
+            # written against an earlier HEAD (before a later fix: commit touched nearby lines): try a 3-way merge
+            r = sh(["git", "-C", wt, "apply", "--3way", os.path.join(src, "patch.diff")])
+            out["applied_with_3way"] = r.returncode == 0
+        if r.returncode != 0:
             print("patch does not apply:", r.stderr)
             return 9
         if "--skip-tests" not in a:
